@@ -48,6 +48,10 @@ KF_C43_type_units(ev) == ev.typeUnits /\ ev.comp = "gcc"
 (* condition is evaluated in IniTrace.tla against the transcription of the current code; this flag says they are listed.         *)
 KF_C39_listed == TRUE
 
+(* C25: FALSE unless listed *)
+KF_C25(ev) == FALSE
+KF_C25_Id(ev) == "none"
+
 (* C04: FALSE unless listed *)
 KF_C04_unescaped(ev) == FALSE
 ====================================================================================================
